@@ -57,8 +57,13 @@ func specMentions(spec *FuncSpec, prop string) bool {
 			return true
 		}
 	}
+	for _, c := range spec.MayPanic {
+		if hasProp(c.Props, prop) {
+			return true
+		}
+	}
 	for _, l := range spec.Loops {
-		for _, c := range l.Invariants {
+		for _, c := range append(append([]*Clause(nil), l.Invariants...), l.Steps...) {
 			if hasProp(c.Props, prop) {
 				return true
 			}
@@ -131,6 +136,9 @@ func allProps(spec *FuncSpec) []string {
 	}
 	for _, l := range spec.Loops {
 		for _, c := range l.Invariants {
+			add(c.Props)
+		}
+		for _, c := range l.Steps {
 			add(c.Props)
 		}
 	}
